@@ -805,6 +805,8 @@ class Ops:
         return d.val
 
     def spread(self, v, node):
+        if isinstance(v, ListV) and v.it is not None:
+            v = self.consume(v, node)  # `f(*iterator)` / `[*iterator]` exhausts a one-shot iterator: nothing is left for a later traversal
         if isinstance(v, ListV) and v.items is not None:
             return ("concrete", list(v.items))
         if isinstance(v, SetV) and v.items is not None:
